@@ -14,13 +14,13 @@ Definition ranges_are_domain (ranges : list (Z * Z)) (lookup : Z -> res (Z * boo
   forall r, int32_ok r -> (in_ranges ranges r = true <-> exists g, lookup r = Ok (g, true)).
 
 (* format 4: segments sorted and disjoint, end >= start, 16-bit fields, glyph arrays of the right
-   length without the missing-glyph entry 0 *)
+   length (entries equal to 0, the missing glyph, are allowed: Iter and RuneRanges skip them) *)
 Definition wf_seg4 (e : seg4) : bool :=
   (0 <=? s4_start e) && (s4_start e <=? s4_end e) && (s4_end e <=? 65535)
   && (0 <=? s4_delta e) && (s4_delta e <=? 65535)
   && match s4_idx e with
      | None => true
-     | Some ix => (zlen ix =? s4_end e - s4_start e + 1) && forallb (fun g => (0 <? g) && (g <=? 65535)) ix
+     | Some ix => (zlen ix =? s4_end e - s4_start e + 1) && forallb (fun g => (0 <=? g) && (g <=? 65535)) ix
      end.
 Fixpoint wf_cmap4_from (lo : Z) (s : cmap4) : bool :=
   match s with
@@ -30,10 +30,10 @@ Fixpoint wf_cmap4_from (lo : Z) (s : cmap4) : bool :=
 Definition wf_cmap4 (s : cmap4) : bool := wf_cmap4_from 0 s.
 
 (* formats 12/13: groups sorted and disjoint, end >= start, code points below 2^31 (a rune), glyphs uint32
-   without wrap inside a group *)
+   (the glyph of format 12 may wrap modulo 2^32 inside a group: Iter and Lookup wrap alike) *)
 Definition wf_grp (is13 : bool) (e : grp) : bool :=
   (0 <=? g_start e) && (g_start e <=? g_end e) && (g_end e <? 2147483648)
-  && (0 <=? g_gid e) && (if is13 then g_gid e <? 4294967296 else g_gid e + (g_end e - g_start e) <? 4294967296).
+  && (0 <=? g_gid e) && (g_gid e <? 4294967296).
 Fixpoint wf_cmap12_from (is13 : bool) (lo : Z) (s : list grp) : bool :=
   match s with
   | [] => true
@@ -41,6 +41,18 @@ Fixpoint wf_cmap12_from (is13 : bool) (lo : Z) (s : list grp) : bool :=
   end.
 Definition wf_cmap12 (s : list grp) : bool := wf_cmap12_from false 0 s.
 Definition wf_cmap13 (s : list grp) : bool := wf_cmap12_from true 0 s.
+
+(* the type invariants alone: what every value of the Go types satisfies.  Format 4 as newCmap4 resolves it (uint16
+   fields, a glyph index array has end - start + 1 uint16 entries); formats 12/13 as parsed (uint32 fields). *)
+Definition u16b (x : Z) : bool := (0 <=? x) && (x <=? 65535).
+Definition u32b (x : Z) : bool := (0 <=? x) && (x <? 4294967296).
+Definition ty_seg4 (e : seg4) : bool :=
+  u16b (s4_start e) && u16b (s4_end e) && u16b (s4_delta e)
+  && match s4_idx e with
+     | None => true
+     | Some ix => (zlen ix =? s4_end e - s4_start e + 1) && forallb u16b ix
+     end.
+Definition ty_grp (e : grp) : bool := u32b (g_start e) && u32b (g_end e) && u32b (g_gid e).
 
 (* formats 6/10: the covered interval is a rune interval *)
 Definition wf_cmap6 (s : cmap6) : bool :=
